@@ -422,6 +422,8 @@ TypedConf(kind, b, res, base) ==
     /\ (P("C12") /\ IsOk(res) /\ Has(res, "as_packet")) => (res.as_packet.variant = kind /\ res.as_packet.same)
     \* a fresh parse of the same bytes, read in another accessor order first, gives the same view
     /\ ((P("C01") \/ P("C09") \/ P("C10") \/ P("C15")) /\ IsOk(res) /\ Has(res, "fresh_same")) => res.fresh_same
+    \* a clone of the value reads like the value and equals it; two parses of the same bytes are equal
+    /\ ((P("C01") \/ P("C09") \/ P("C10") \/ P("C15")) /\ IsOk(res) /\ Has(res, "clone_same")) => res.clone_same
     \* C18, second sentence: a too-short input and a version-2 input of the right type with a wrong length ARE reported
     /\ (P("C18") /\ MandatedErr(MinLen(kind), PTOf(kind), b) # {}) => IsErr(res)
     /\ IsOk(res) =>
